@@ -863,6 +863,8 @@ impl ReaderState {
             .verify_parent_tag(TAG_INVOKE, &[TAG_STATE, TAG_PARALLEL])
             .to_string();
         let mut invoke = Invoke::new();
+        // The document id tells the invokes of a session apart (finalize, cancel).
+        invoke.doc_id = DOC_ID_COUNTER.fetch_add(1, Ordering::Relaxed);
 
         if let Some(type_opt) = attr.get(ATTR_TYPE) {
             invoke.type_name = self.create_source(type_opt.as_str());
